@@ -174,7 +174,19 @@ def run(ctx):
         ctx.violation(key, f"{len(cases)} histories disagree with Gate.tla at {key}; shortest: history={json.dumps(h)} "
                       f"step {step}: spec {exp} code {obs}", {"history": h, "step": step, "expected": exp, "observed": obs})
     total["check_cells"] = len(total["check_cells"])
+    # unbounded-history argument (thorough tier): Apalache shows the restoration invariant inductive
+    apa = "not run (quick tier)"
+    if not ctx.quick:
+        import subprocess
+        pr = subprocess.run([os.path.join(lib.VERIF, "harness", "apalache_gate.sh")], capture_output=True, text=True, timeout=2400)
+        if pr.returncode == 0:
+            apa = "IndInv inductive (Init => IndInv, IndInv /\\ Next => IndInv'), nesting <= 3, unbounded history: " + pr.stdout.strip()
+        elif pr.returncode == 1:
+            raise lib.Machinery("Apalache refutes the inductive invariant of spec/apalache/GateInd.tla: " + pr.stdout[-500:])
+        else:
+            apa = "apalache did not complete: " + pr.stdout.strip()[-200:]
     ctx.coverage.update({
+        "apalache_inductive_invariant": apa,
         "traces_validated_against_impl": total["histories"],
         "evaluations": total["steps"],
         "distinct_nontrivial": total["nested"],
